@@ -6,7 +6,6 @@ C17 — executable model of ODL's NumPy-ufunc glue *as the code exists*:
 * `powerDispatch`    ↔ `odl/space/pspace.py : ProductSpaceElement.__array__/__array_wrap__`
                         driven by NumPy's default protocol (no `__array_ufunc__` there)
 * `element`          ↔ `NumpyTensorSpace.element(arr)` (no-copy rule, `ndmin` padding)
-* `writeBack`        ↔ `odl/util/utility.py : writable_array`
 * `legacyCall`       ↔ `odl/util/ufuncs.py : wrap_ufunc_base`, `TensorSpaceUfuncs.sum/…`
 
 NumPy itself is a PARAMETER: what `ufunc.method(*arrays, **kw)` returns on the unwrapped
@@ -36,36 +35,94 @@ def DType.isNumeric : DType → Bool
   | .bool | .object => false
   | _ => true
 
-/-- `np.can_cast(float64, dt)` (safe casting) — used by the space constructor to check an
-array weighting (whose array is `float64`) against the space dtype. -/
-def DType.canCastFromF64 : DType → Bool
-  | .float64 | .longdouble | .complex128 | .clongdouble | .object => true
-  | _ => false
+/-- `NumpyTensorSpace.available_dtypes()`: everything numeric plus `bool`; `object` is refused
+by the space constructor (`ValueError('dtype … not supported')`). -/
+def DType.available : DType → Bool
+  | .object => false
+  | _ => true
+
+/-- kind letter and item bits (per component for complex) -/
+inductive DKind | b | i | u | f | c | O
+  deriving DecidableEq, Repr
+
+def DType.kind : DType → DKind
+  | .bool => .b
+  | .int8 | .int16 | .int32 | .int64 => .i
+  | .uint8 | .uint16 | .uint32 | .uint64 => .u
+  | .float16 | .float32 | .float64 | .longdouble => .f
+  | .complex64 | .complex128 | .clongdouble => .c
+  | .object => .O
+
+def DType.bits : DType → Nat
+  | .bool => 1
+  | .int8 | .uint8 => 8
+  | .int16 | .uint16 | .float16 => 16
+  | .int32 | .uint32 | .float32 | .complex64 => 32
+  | .int64 | .uint64 | .float64 | .complex128 => 64
+  | .longdouble | .clongdouble => 128
+  | .object => 0
+
+/-- integer of `k` bits fits a float of `m` bits (NumPy's safe-cast table) -/
+def intFitsFloat (k m : Nat) : Bool := (k ≤ 8 && 16 ≤ m) || (k ≤ 16 && 32 ≤ m) || 64 ≤ m
+
+/-- `np.can_cast(src, dst)` with the default (`safe`) rule, as used by the space constructor
+to check a weight array against the space dtype. Checked against the live NumPy table
+(`Gen/UfuncLegacy.lean : npCanCast`) by `C17.canCast_matches_numpy`. -/
+def DType.canCast (src dst : DType) : Bool :=
+  if src = dst then true else
+  match src.kind, dst.kind with
+  | _, .O => true
+  | .O, _ => false
+  | .b, _ => true
+  | .i, .i => src.bits ≤ dst.bits
+  | .u, .u => src.bits ≤ dst.bits
+  | .u, .i => src.bits < dst.bits
+  | .i, .f | .u, .f | .i, .c | .u, .c => intFitsFloat src.bits dst.bits
+  | .f, .f | .f, .c | .c, .c => src.bits ≤ dst.bits
+  | _, _ => false
 
 /-- Exponent of a weighting; `none` is `inf`. -/
 abbrev Exponent := Option Rat
 
 inductive Weighting
   | const (c : Rat) (exp : Exponent)
-  | array (exp : Exponent)          -- `NumpyTensorSpaceArrayWeighting`, float64 array, opaque values
+  | array (wdt : DType) (exp : Exponent)   -- `…ArrayWeighting`: weight array of dtype `wdt`, opaque values
+  | custom (exp : Exponent)                -- `…CustomInner/Norm/Dist`: an opaque object
   deriving DecidableEq, Repr
 
 def Weighting.exp : Weighting → Exponent
   | .const _ e => e
-  | .array e => e
+  | .array _ e => e
+  | .custom e => e
 
 /-- What a space constructor without `weighting`/`exponent` arguments uses. -/
 def Weighting.default : Weighting := .const 1 (some 2)
 
-/-- One axis of a uniform partition: `[lo, hi]` cut into `n` cells. -/
+/-- Cell side of one partition axis: `partition.cell_sides[i]` for a uniform axis
+(`(hi-lo)/n`, or `(hi-lo)/(n-1)` etc. with nodes on the boundary — the code's value is
+carried, not recomputed), or the grid coordinates of a non-uniform axis. -/
+inductive Side
+  | uniform (s : Rat)
+  | nonuniform (pts : List Rat)
+  deriving DecidableEq, Repr
+
+/-- One axis of a partition: `[lo, hi]`, `n` cells, cell side. -/
 structure Cell where
   lo : Rat
   hi : Rat
   n : Nat
+  side : Side
   deriving DecidableEq, Repr
 
-def cellVolume (p : List Cell) : Rat :=
-  (p.map fun c => (c.hi - c.lo) / (c.n : Rat)).foldl (· * ·) 1
+/-- `partition.cell_volume` of a uniform partition; `none` (NaN in the code) otherwise. -/
+def cellVolume : List Cell → Option Rat
+  | [] => some 1
+  | c :: t =>
+    match c.side, cellVolume t with
+    | .uniform s, some v => some (s * v)
+    | _, _ => Option.none
+
+def isUniform (p : List Cell) : Bool := (cellVolume p).isSome
 
 /-- Kind of one entry of the `out` tuple, as the `isinstance` tests see it.
 `own` is `type(self)`; `tensor` is the underlying `NumpyTensor` type when `self` is a
@@ -115,24 +172,6 @@ inductive Outcome
 inductive Axis | absent | none | ints (l : List Int)
   deriving DecidableEq, Repr
 
-/-! ### `writable_array` -/
-
-/-- Contract of `with writable_array(obj, dtype=…) as arr`: `arr = np.asarray(obj, dtype)`;
-on exit `obj[:] = arr` (`obj[()] = arr` for a 0-d array).  The object finally holds what was
-written to `arr` (cast to its own dtype): `viaCopy` says that `arr` is a temporary.
-`writeBackOld` is the code before the repair of C17-F5 (`obj[:] = arr` always: `IndexError`
-for a 0-d array, even while another exception is propagating). -/
-inductive WriteBack | direct | viaCopy | indexError
-  deriving DecidableEq, Repr
-
-def writeBack (_o : OutKind) (dtypeKwDiffers : Bool) : WriteBack :=
-  if dtypeKwDiffers then .viaCopy else .direct
-
-def writeBackOld (o : OutKind) (dtypeKwDiffers : Bool) : WriteBack :=
-  match o with
-  | .ndarray0 => .indexError
-  | _ => if dtypeKwDiffers then .viaCopy else .direct
-
 /-! ### `NumpyTensorSpace.element(arr)` -/
 
 /-- `np.array(…, ndmin=ndim)` prepends axes of length one. -/
@@ -168,6 +207,37 @@ def element (sshape : List Nat) (sdt : DType) (a : ArrDesc) (o : Order) : ElemOu
   if padShape sshape.length a.shape ≠ sshape then .err "ValueError"
   else .ok (a.dt = sdt && orderOk o a && a.writeable)
 
+/-! ### NumPy's axis rule (specification side, compared with the live NumPy) -/
+
+/-- NumPy: which position an `axis` entry denotes. -/
+def npAxisPos (ndim : Nat) (a : Int) : Option Nat :=
+  if 0 ≤ a ∧ a < (ndim : Int) then some a.toNat
+  else if -(ndim : Int) ≤ a ∧ a < 0 then some (a + ndim).toNat
+  else none
+
+/-- keep the entries whose running position satisfies `p` -/
+def keepIdx {α} (p : Nat → Bool) : List α → Nat → List α
+  | [], _ => []
+  | x :: t, i => if p i then x :: keepIdx p t (i + 1) else keepIdx p t (i + 1)
+
+/-- positions denoted by an axis list; `none` = NumPy's AxisError -/
+def npPositions (ndim : Nat) : List Int → Option (List Nat)
+  | [] => some []
+  | a :: t =>
+    match npAxisPos ndim a, npPositions ndim t with
+    | some p, some ps => some (p :: ps)
+    | _, _ => none
+
+/-- NumPy's `reduce` over `axis`: delete the denoted positions (AxisError = none).
+This is NumPy's rule stated WITHOUT a modulus and without index lists; it is executed by the
+driver (`npreduce`) against the live NumPy. -/
+def npReduce {α} (l : List α) (axis : List Int) : Option (List α) :=
+  match npPositions l.length axis with
+  | some pos =>
+    if pos.eraseDups.length = pos.length   -- "duplicate value in 'axis'" is an error too
+    then some (keepIdx (fun i => !pos.contains i) l 0) else Option.none
+  | Option.none => Option.none
+
 /-! ### Tensor level -/
 
 structure TSelf where
@@ -184,26 +254,17 @@ def validOutT : OutKind → Bool
   | _ => false
 
 /-- `type(self.space)(shape, dtype, weighting=w)` / `…(shape, dtype)`: the weighting of the
-new space, or the constructor's `ValueError`. -/
+new space, or the constructor's `ValueError` (unsupported dtype; a weighting for a
+non-numeric dtype; a weight array that cannot be cast safely to the dtype). -/
 def ctorT (dt : DType) (w : Option Weighting) : Except String Weighting :=
+  if !dt.available then .error "ValueError" else
   match w with
   | Option.none => .ok Weighting.default
-  | some (.array e) =>
+  | some (.array wdt e) =>
       if !dt.isNumeric then .error "ValueError"
-      else if dt.canCastFromF64 then .ok (.array e) else .error "ValueError"
+      else if wdt.canCast dt then .ok (.array wdt e) else .error "ValueError"
   | some (.const c e) => if !dt.isNumeric then .error "ValueError" else .ok (.const c e)
-
-/-- Wrapping in `__call__` BEFORE the repair of C17-F1: the space was built with
-**`self.shape`** (not `res.shape`) and `res.dtype`; weighting propagated iff floating;
-`element(res)` then checked the shape. Kept only to document the sensitivity. -/
-def wrapCallOld (s : TSelf) (prop : Bool) (v : NpVal) : Except String Ret :=
-  match v with
-  | .arr sh dt =>
-      match ctorT dt (if prop && dt.isFloating then some s.w else Option.none) with
-      | .error e => .error e
-      | .ok w => if padShape s.shape.length sh = s.shape then .ok (.wrapT s.shape dt w)
-                 else .error "ValueError"
-  | _ => .error "AttributeError"
+  | some (.custom e) => if !dt.isNumeric then .error "ValueError" else .ok (.custom e)
 
 /-- Wrapping in `__call__`: the space is built with `res.shape` and `res.dtype`. With one
 output (`prop`) the weighting is propagated iff the result is floating and has the element's
@@ -282,12 +343,11 @@ def tensorDispatch (s : TSelf) (m : Method) (nout : Nat) (outs : List OutKind) (
 structure DSelf where
   part : List Cell
   dt : DType
-  wc : Rat            -- constant of the (constant) weighting of `space.tspace`
-  exp : Exponent
+  w : Weighting       -- weighting of `space.tspace` (constant cell volume by default)
   deriving DecidableEq, Repr
 
 def DSelf.shape (s : DSelf) : List Nat := s.part.map (·.n)
-def DSelf.toT (s : DSelf) : TSelf := ⟨s.shape, .const s.wc s.exp⟩
+def DSelf.toT (s : DSelf) : TSelf := ⟨s.shape, s.w⟩
 
 def validOutD : OutKind → Bool
   | .foreign => false
@@ -307,17 +367,23 @@ def reducedAxes (ndim : Nat) : Axis → List Nat
   | .ints l =>
       (List.range ndim).filter (fun i => !(l.map (· % (ndim : Int))).contains (i : Int))
 
-/-- The code before the repair of C17-F2: the raw (possibly negative) integers were tested. -/
-def reducedAxesOld (ndim : Nat) : Axis → List Nat
-  | .absent | .none => (List.range ndim).drop 1
-  | .ints l => (List.range ndim).filter (fun i => !l.contains (i : Int))
-
-def cellDefault : Cell := ⟨0, 0, 0⟩
+def cellDefault : Cell := ⟨0, 0, 0, .uniform 0⟩
 
 /-- `DiscretizedSpace(self.partition, res_tens.space)` around a tensor-level result. -/
 def rewrapSame (s : DSelf) : Ret → Except String Ret
   | .wrapT sh dt w => if sh = s.shape then .ok (.wrapD sh dt w s.part) else .error "ValueError"
   | r => .ok r
+
+/-- `space.byaxis_in[kept]`: weighting of the sub-space. Constant weighting on a uniform
+sub-partition → its cell volume (whatever the constant was); otherwise `tspace.byaxis[kept]`:
+a constant or custom weighting is carried over, an ARRAY weighting is indexed along its first
+axis (`array[kept]`), which never has the new shape → the constructor raises. -/
+def byaxisWeighting (w : Weighting) (part' : List Cell) : Except String Weighting :=
+  match w, cellVolume part' with
+  | .const _ e, some v => .ok (.const v e)
+  | .const c e, Option.none => .ok (.const c e)
+  | .array _ _, _ => .error "ValueError"
+  | .custom e, _ => .ok (.custom e)
 
 /-- `self.space.byaxis_in[reduced_axes].astype(res.dtype).element(res_tens)`. -/
 def reduceWrap (s : DSelf) (axis : Axis) : Ret → Except String Ret
@@ -325,30 +391,27 @@ def reduceWrap (s : DSelf) (axis : Axis) : Ret → Except String Ret
       let kept := reducedAxes s.part.length axis
       let part' := kept.map (fun i => s.part.getD i cellDefault)
       let newshape := part'.map (·.n)
-      let w0 : Weighting := .const (cellVolume part') s.exp
-      let w : Weighting := if dt = s.dt then w0 else if dt.isFloating then w0 else .default
-      if padShape newshape.length sh = newshape then .ok (.wrapD newshape dt w part')
-      else .error "ValueError"
+      match byaxisWeighting s.w part' with
+      | .error e => .error e
+      | .ok w0 =>
+        -- `.astype(dt)`: same dtype → same space; floating → weighting kept; else default
+        let w : Weighting := if dt = s.dt then w0 else if dt.isFloating then w0 else .default
+        if !dt.available then .error "ValueError"
+        else if padShape newshape.length sh = newshape then .ok (.wrapD newshape dt w part')
+        else .error "ValueError"
   | r => .ok r
 
-/-- `outer`: partitions appended; for a numeric result dtype (both weightings constant) the
-constants are multiplied and the tensor space rebuilt with that weighting and the result
-tensor's exponent; otherwise (boolean result) the result tensor's own space is used. -/
+/-- `outer`: partitions appended; if the result dtype is numeric and BOTH weightings are
+constant the constants are multiplied and the tensor space rebuilt with that weighting and the
+result tensor's exponent; otherwise the result tensor's own space is used. -/
 def outerWrap (p1 p2 : DSelf) : Ret → Except String Ret
   | .wrapT sh dt wT =>
       if sh = (p1.part ++ p2.part).map (·.n) then
-        .ok (.wrapD sh dt (if dt.isNumeric then .const (p1.wc * p2.wc) wT.exp else wT)
-          (p1.part ++ p2.part))
-      else .error "ValueError"
-  | r => .ok r
-
-/-- Before the repair of C17-F3 the weighting was passed whatever the dtype, and the space
-constructor raised for a non-numeric (boolean) result. -/
-def outerWrapOld (p1 p2 : DSelf) : Ret → Except String Ret
-  | .wrapT sh dt wT =>
-      if !dt.isNumeric then .error "ValueError"
-      else if sh = (p1.part ++ p2.part).map (·.n) then
-        .ok (.wrapD sh dt (.const (p1.wc * p2.wc) wT.exp) (p1.part ++ p2.part))
+        let w : Weighting :=
+          match dt.isNumeric, p1.w, p2.w with
+          | true, .const c1 _, .const c2 _ => .const (c1 * c2) wT.exp
+          | _, _, _ => wT
+        .ok (.wrapD sh dt w (p1.part ++ p2.part))
       else .error "ValueError"
   | r => .ok r
 
@@ -422,13 +485,6 @@ def powerWrap (s : PSelf) : NpVal → Except String Ret
   | .arr sh dt => if sh = [] then .ok .scalar
                   else if sh = s.shape then .ok (.wrapP s.shape dt) else .error "ValueError"
 
-/-- Before the repair (part of C17-F6) the array was CAST into the original space. -/
-def powerWrapOld (s : PSelf) : NpVal → Except String Ret
-  | .none => .ok .none
-  | .scalar => .ok .scalar
-  | .arr sh _ => if sh = [] then .ok .scalar
-                 else if sh = s.shape then .ok (.wrapP s.shape s.dt) else .error "ValueError"
-
 /-- NumPy (no `__array_ufunc__` on the element): a non-array `out` is a `TypeError`,
 `at` needs a real array, `outer` results are not passed to `__array_wrap__`. -/
 def powerDispatch (s : PSelf) (m : Method) (nin nout : Nat) (outs : List OutKind) (np : NpRes) :
@@ -472,8 +528,7 @@ structure Req where
   np : NpRes
   deriving Repr
 
-def Req.dself (r : Req) : DSelf :=
-  ⟨r.part, r.dt, (match r.w with | .const c _ => c | .array _ => 1), r.w.exp⟩
+def Req.dself (r : Req) : DSelf := ⟨r.part, r.dt, r.w⟩
 
 def dispatch (r : Req) : Outcome :=
   match r.kind with
